@@ -8,6 +8,7 @@ import (
 	"strconv"
 	"strings"
 	"sync"
+	"sync/atomic"
 	"time"
 
 	"github.com/herohde/morlock/cmd/bernstein/bernstein"
@@ -225,12 +226,18 @@ func runUciScript(kind string, seed int64, steps []string) string {
 			if f := strings.Fields(st); len(f) > 1 {
 				ms, _ = strconv.Atoi(f[1])
 			}
+			// once several waits of this run have already expired (the run is failing anyway), later waits are cut short so
+			// that a driver that never answers costs minutes, not an hour
+			if (uciNoAnswer.Load() >= 3 || os.Getenv("VERIF_UCI_FAST") == "1") && ms > 2500 {
+				ms = 2500
+			}
 			// answered = a bestmove has been printed since the latest go (possibly before this step)
 			if s.waitFor(func(l []string) bool {
 				return containsPrefix(l, "bestmove") || (s.goMark <= len(s.lines) && containsPrefix(s.lines[s.goMark:], "bestmove"))
 			}, time.Duration(ms)*time.Millisecond) {
 				emit("answered")
 			} else {
+				uciNoAnswer.Add(1)
 				emit("NO-BESTMOVE")
 			}
 		case strings.HasPrefix(st, "sleep"):
@@ -349,9 +356,25 @@ func init() {
 // send on a closed channel) would otherwise take the harness down.
 var childOps = map[string]bool{}
 
+// uciHangs counts child scripts killed for not finishing; after three the limit drops (the run is failing anyway).
+var uciHangs atomic.Int64
+
+func childLimit() time.Duration {
+	if uciHangs.Load() >= 3 {
+		return 15 * time.Second
+	}
+	return 60 * time.Second
+}
+
+// uciNoAnswer counts expired bestmove waits of this harness run (in-process scripts and child scripts).
+var uciNoAnswer atomic.Int64
+
 func evalInChild(line string) string {
 	cmd := exec.Command(os.Args[0], "-evalop", line, "-out", os.TempDir(), "child")
 	cmd.Env = os.Environ()
+	if uciNoAnswer.Load() >= 3 {
+		cmd.Env = append(cmd.Env, "VERIF_UCI_FAST=1")
+	}
 	done := make(chan struct{})
 	var out []byte
 	var err error
@@ -361,12 +384,16 @@ func evalInChild(line string) string {
 	}()
 	select {
 	case <-done:
-	case <-time.After(60 * time.Second):
+	case <-time.After(childLimit()):
 		_ = cmd.Process.Kill()
 		<-done
+		uciHangs.Add(1)
 		return "hang"
 	}
 	txt := strings.TrimSpace(string(out))
+	if strings.Contains(txt, "NO-BESTMOVE") {
+		uciNoAnswer.Add(1)
+	}
 	if err != nil {
 		first := txt
 		for _, l := range strings.Split(txt, "\n") {
